@@ -73,7 +73,11 @@ func (s *Spec) GenValue(t *Type, r *HashRng, leafPath string, sink FileSink, dep
 	case KString:
 		return "v-" + r.Hex(10)
 	case KBool:
-		return r.Pct(50)
+		v := r.Pct(50)
+		if s.ForceBool != nil {
+			return *s.ForceBool
+		}
+		return v
 	case KPath, KFile, KUserFile:
 		return sink(leafPath, t, r)
 	case KMap:
